@@ -68,6 +68,42 @@ def sql_of(cls, node):
     return None
 
 
+WRITE_MODES = {"write", "rewrite"}
+ALL_MODES = ("write", "rewrite", "read", "<any other>")
+
+
+def feasible_modes(p, selfn):
+    """the store modes for which every test of <self>.mode on the path has the recorded outcome;
+    None when a mode test is not a comparison with string literals"""
+    ok = set(ALL_MODES)
+    mp = selfn + ".mode"
+    for e in p.events:
+        if e.kind != "guard" or mp not in text(e.node):
+            continue
+        g = e.node
+        if not (isinstance(g, ast.Compare) and len(g.ops) == 1):
+            return None
+        a, b, op = g.left, g.comparators[0], g.ops[0]
+        if access_path(b) == mp and isinstance(op, (ast.Eq, ast.NotEq)):
+            a, b = b, a
+        if access_path(a) != mp:
+            return None
+        if isinstance(op, (ast.Eq, ast.NotEq)) and isinstance(b, ast.Constant) and isinstance(b.value, str):
+            sat = {m for m in ALL_MODES if (m == b.value)}
+            if isinstance(op, ast.NotEq):
+                sat = set(ALL_MODES) - sat
+        elif isinstance(op, (ast.In, ast.NotIn)) and isinstance(b, (ast.Tuple, ast.List, ast.Set)) \
+                and all(isinstance(x, ast.Constant) and isinstance(x.value, str) for x in b.elts):
+            vals = {x.value for x in b.elts}
+            sat = {m for m in ALL_MODES if m in vals}
+            if isinstance(op, ast.NotIn):
+                sat = set(ALL_MODES) - sat
+        else:
+            return None
+        ok &= sat if e.val else (set(ALL_MODES) - sat)
+    return ok
+
+
 def r2_sync(ctx, repo, cls):
     mod = cls.module
     fn = cls.methods.get("sync_individual")
@@ -78,17 +114,19 @@ def r2_sync(ctx, repo, cls):
     en = Enumerator(loop_counts=(0, 1), can_raise=lambda s: any(isinstance(c.func, ast.Attribute) and c.func.attr in ("execute", "commit", "executemany") for c in calls_in(s)))
     paths = en.function_paths(fn)
     bad = None
+    unknown = None
     n_write = 0
     for p in paths:
         if p.outcome == "raise":
             continue
-        write_mode = None
-        for e in p.events:
-            if e.kind == "guard" and "mode" in text(e.node) and isinstance(e.node, ast.Compare):
-                if e.val and isinstance(e.node.ops[0], ast.Eq):
-                    write_mode = True
-                elif write_mode is None:
-                    write_mode = False
+        modes = feasible_modes(p, selfn)
+        if modes is None:
+            unknown = unknown or (p, "a test of the store mode on the path [%s] is not a comparison with literals" % p.describe(4))
+            continue
+        if not modes:
+            continue        # infeasible combination of mode tests
+        write_mode = modes <= WRITE_MODES
+        mixed = bool(modes & WRITE_MODES) and not write_mode
         caught = [e for e in p.events if e.kind == "catch"]
         conn_var = None
         cur_conn = {}
@@ -124,8 +162,11 @@ def r2_sync(ctx, repo, cls):
             continue
         if not write_mode:
             if execs:
-                bad = bad or (p, fn, "writes in a non-write mode")
-            continue
+                bad = bad or (p, fn, "writes in a non-write mode (%s)" % sorted(modes - WRITE_MODES))
+                continue
+            if not mixed:
+                continue
+            # the same path is taken in a write mode and in a read mode and writes nothing: handled below as a write path
         n_write += 1
         if len(execs) == 0:
             bad = bad or (p, fn, "sync_individual can return in a write mode without having written the individual (e.g. after a bounded number of retries): the design is silently missing from the store")
@@ -141,6 +182,8 @@ def r2_sync(ctx, repo, cls):
             bad = bad or (p, fn, "no commit on the writing connection after the upsert: the row is lost (rolled back) if the process dies, although sync_individual has returned")
     if bad:
         ctx.violated("R2", C, where(mod, bad[1]), bad[2] + " (path [%s])" % bad[0].describe(6), key="upsert-then-commit")
+    elif unknown:
+        ctx.inconclusive("R2", C, where(mod, fn), unknown[1], key="upsert-then-commit")
     elif n_write == 0:
         ctx.inconclusive("R2", C, where(mod, fn), "no write-mode path found", key="upsert-then-commit")
     else:
